@@ -379,7 +379,23 @@ def nan_weights_case(ctx, index, rng: random.Random):
     rec.case(["nanw", kind, gen.hexlist(pts.ravel())], True, cls=f"nan_weights/{kind}")
 
 
+def detached_case(ctx, index, rng: random.Random):
+    """find_bin / fill of a transformed histogram keep addressing existing bins after one of its projections
+    (or the histogram itself, seen from the projection) has grown."""
+    from ..monitors import structure
+
+    def inspect(other):
+        probs = []
+        f = np.asarray(other.frequencies)
+        if tuple(other.shape) != f.shape:
+            probs.append(f"bins {tuple(other.shape)} vs contents {f.shape}")
+        return probs
+
+    structure.detached_workload(ctx, index, rng, prop="C15", monitor="C15.paths", inspect=inspect, kinds=("cylindrical", "polar", "spherical"))
+
+
 def run(ctx):
+    ctx.run_cases(ctx.scale(60, 400), detached_case, salt="detached")
     ctx.run_cases(ctx.scale(400, 3000), one_case, salt="paths")
     ctx.run_cases(ctx.scale(30, 150), cylsurf_case, salt="cylsurf")
     ctx.run_cases(ctx.scale(60, 300), nan_weights_case, salt="nanw")
